@@ -72,6 +72,7 @@ class FakeWS:
 
     def sendMessage(self, payload, isBinary=False):
         self._conn.up.append(payload)
+        self._conn.world._ghost_tx(self._conn.ci, payload)
 
 
 class FakeClientService:
@@ -223,6 +224,9 @@ class Client:
         self.pc = [0] * len(self.threads)
         self.w = None
         self.boss = None
+        # ghost ledger for oracles (part of the canonical state)
+        self.ghost = {"claimed_np": set(), "told_np": set(), "sent_open": set(), "srv_close": set(),
+                      "srv_release": set(), "cause": None, "closed_checked": False}
 
 
 DOCUMENTED_API_ERRORS = (werrors.WormholeError,)
@@ -233,7 +237,7 @@ class MailboxWorld:
     explored={kinds}, coarse={client indexes whose up/down run eagerly},
     welcome={...}, reorder=int, dup=int, acks=bool, initial_fail=bool"""
 
-    KINDS = ("down", "up", "api", "turn", "connect", "stopfin", "reorder", "dup", "drop", "connfail")
+    KINDS = ("down", "up", "api", "turn", "connect", "stopfin", "reorder", "dup", "srverr", "drop", "connfail")
 
     def __init__(self, cfg, seed=0):
         self.cfg = cfg
@@ -248,6 +252,7 @@ class MailboxWorld:
         self.coarse = set(cfg.get("coarse", ()))
         self.reorder_left = cfg.get("reorder", 0)
         self.dup_left = cfg.get("dup", 0)
+        self.srverr_left = cfg.get("srverr", 0)
         self.monitors = list(cfg.get("monitors", ()))
         self.final_monitors = list(cfg.get("final_monitors", ()))
         self._pending_services = []
@@ -298,6 +303,22 @@ class MailboxWorld:
     def logged_error(self, rec):
         self.errors.append(rec)
 
+    def _ghost_tx(self, ci, payload):
+        g = self.clients[ci].ghost
+        m = json.loads(payload.decode("utf-8"))
+        if m["type"] == "claim":
+            g["claimed_np"].add(m["nameplate"])
+        elif m["type"] == "open":
+            g["sent_open"].add(m["mailbox"])
+
+    def _ghost_srv(self, cn, payload):
+        g = self.clients[cn.ci].ghost
+        m = json.loads(payload.decode("utf-8"))
+        if m["type"] == "close":
+            g["srv_close"].add((m.get("mailbox"), m.get("mood")))
+        elif m["type"] == "release":
+            g["srv_release"].add(m.get("nameplate"))
+
     # ---- event menu
     def _all_enabled(self):
         evs = []
@@ -338,6 +359,13 @@ class MailboxWorld:
         for c in self.clients:
             if c.drops_left > 0 and c.conn and c.conn.open:
                 evs.append(("drop", c.ci))
+        if self.srverr_left > 0:
+            for c in self.clients:
+                cn = c.conn
+                if cn and cn.open and not cn.stopping and cn.up:
+                    t = json.loads(cn.up[0].decode("utf-8"))["type"]
+                    if t in self.cfg.get("srverr_types", ("claim", "open")):
+                        evs.append(("srverr", c.ci))
         if self.cfg.get("initial_fail"):
             for c in self.clients:
                 if c.svc.running and not c.ever_connected and c.conn is None and not getattr(c, "failed", False):
@@ -353,7 +381,17 @@ class MailboxWorld:
             return g(self, c, step)
         if step[0] in ("nameplate", "words", "refresh", "completions_np", "completions_w"):
             return c.app.helper is not None
+        if step[0] == "set_code_peer":
+            return self._peer_code(c) is not None
         return True
+
+    def _peer_code(self, c):
+        for o in self.clients:
+            if o is not c:
+                for k, v in o.app.obs:
+                    if k == "code":
+                        return v
+        return None
 
     def _is_eager(self, ev):
         if ev[0] not in self.explored:
@@ -368,7 +406,7 @@ class MailboxWorld:
     def _closure(self):
         n = 0
         while True:
-            evs = [e for e in self._all_enabled() if self._is_eager(e) and e[0] not in ("drop", "dup", "reorder", "connfail")]
+            evs = [e for e in self._all_enabled() if self._is_eager(e) and e[0] not in ("drop", "dup", "reorder", "connfail", "srverr")]
             if not evs:
                 break
             self._do(evs[0])
@@ -427,6 +465,11 @@ class MailboxWorld:
                 self._stopfin(c, process_uplink=False)
             else:
                 self._drop(c)
+        elif kind == "srverr":
+            self.srverr_left -= 1
+            payload = c.conn.up.popleft()
+            orig = json.loads(payload.decode("utf-8"))
+            c.conn.down.append({"type": "error", "error": "crowded", "orig": orig})
         elif kind == "connfail":
             c.failed = True
             for d in c.svc.when_connected:
@@ -481,11 +524,19 @@ class MailboxWorld:
         h = self.cfg.get("server_hook")
         if h and h(self, cn, payload):
             return
+        self._ghost_srv(cn, payload)
         cn.sp.onMessage(payload, False)
 
     def _deliver(self, c, msg, record=True):
         if record and msg.get("type") == "message":
             c.__dict__.setdefault("_delivered", []).append(msg)
+        if msg.get("type") == "allocated":
+            c.ghost["told_np"].add(msg["nameplate"])
+        if c.ghost["cause"] is None:
+            if msg.get("type") == "error":
+                c.ghost["cause"] = ("error",)
+            elif msg.get("type") == "welcome" and "error" in msg.get("welcome", {}):
+                c.ghost["cause"] = ("unwelcome",)
         h = self.cfg.get("deliver_hook")
         if h:
             msg = h(self, c, msg)
@@ -508,6 +559,8 @@ class MailboxWorld:
         try:
             if op == "set_code":
                 w.set_code(step[1])
+            elif op == "set_code_peer":
+                w.set_code(self._peer_code(c))
             elif op == "allocate":
                 w.allocate_code(*step[1:])
             elif op == "input":
@@ -526,6 +579,8 @@ class MailboxWorld:
                 app.sent.append(step[1])
                 w.send_message(step[1])
             elif op == "close":
+                if c.ghost["cause"] is None:
+                    c.ghost["cause"] = ("close", any(k == "verifier" for k, v in app.obs))
                 if app.mode == "delegate":
                     w.close()
                 else:
@@ -601,9 +656,9 @@ class MailboxWorld:
                           c.svc.running, c.svc.stopped, c.svc.stop_d is not None,
                           conn_img, timers,
                           tuple(json.dumps(m, sort_keys=True) for m in c.delivered_msgs()) if self.dup_left else (),
-                          im.img(c.boss), im.img(c.app)))
+                          im.img(c.boss), im.img(c.app), im.img(c.ghost)))
         srv = self.server_dump()
-        return (tuple(parts), im.img(srv), self.reorder_left, self.dup_left,
+        return (tuple(parts), im.img(srv), self.reorder_left, self.dup_left, self.srverr_left,
                 tuple(self.errors), tuple(self.escaped),
                 im.img(self.cfg.get("extra_state")(self)) if self.cfg.get("extra_state") else None)
 
